@@ -445,8 +445,8 @@ func checkC13(c *Ctx) {
 		var world *c13World
 		first := true
 		b := bound
-		if progs[sc.Prog].terminating && !c.Quick() {
-			b = -1 // unbounded for terminating programs
+		if progs[sc.Prog].terminating && !c.Quick() && sc.Runs <= 1 {
+			b = -1 // unbounded for terminating programs (single Run; repeated Runs stay at the preemption bound)
 		}
 		st := sched.Explore(b, c13Horizon, 400000, c13Body(bg, sc, &world), func(x *sched.Scheduler) bool {
 			spawned := rt.Spawned
